@@ -4,6 +4,7 @@ Import ListNotations.
 From GS Require Import Num NumR EventLoop Kernel Sim.
 From GS Require Import NumZ Sim ExampleKit.
 From GS.Proofs Require Import Aux SimP SimP3 TraceSpec DrawSpec.
+From GS.Proofs Require Import MoveSpec SchedSpec.
 
 Section C10.
 Context {F : Type} (A : ArithOps F) {PS : Type} (cfg : scfg F)
@@ -56,6 +57,16 @@ Theorem C10_whole_run_draws (c : kcfg F) fuel ps0 :
   s_cursor (k_h s') = attempted A cfg (i0 ++ items).
 Proof. exact (whole_run_draws A cfg react c fuel ps0). Qed.
 
+(** WHOLE RUNS: every copy an accepted send / broadcast attempts consumes exactly the next draw on a lossy medium
+    and is scheduled iff it is in range and its draw passes; a copy that was not scheduled then is never scheduled
+    later (nothing else produces delivery events) -- acceptor of Proofs/SchedSpec.v. *)
+Theorem C10_whole_run_scheduling_justified (c : kcfg F) fuel ps0 :
+  let '(s0, i0) := sim_start A cfg ps0 in
+  let '(s', items, fin) := k_run A (sim_hooks A cfg react) c fuel s0 in
+  accept (x_next A cfg) x_ok (x0 A cfg) (i0 ++ items) /\
+  after (x_next A cfg) (x0 A cfg) (i0 ++ items) = x_abs (el_now (k_el s')) (k_h s').
+Proof. exact (whole_run_scheduled A cfg react c fuel ps0). Qed.
+
 End C10.
 
 (** Rate 1 (or more) with draws in [0,1): nothing is ever delivered; the set of draws that lose
@@ -81,3 +92,4 @@ Print Assumptions C10_broadcast_independent.
 Print Assumptions C10_only_transmissions_draw.
 Print Assumptions C10_loss_threshold.
 Print Assumptions C10_whole_run_draws.
+Print Assumptions C10_whole_run_scheduling_justified.
